@@ -354,13 +354,36 @@ def _snapshot_classes() -> None:
             if not isinstance(cls, type) or cls.__module__ != name or isinstance(cls, enum.EnumMeta):
                 continue
             for attr, val in sorted(vars(cls).items(), key=lambda kv: kv[0]):
+                fn = getattr(val, "__func__", val)  # staticmethod / classmethod wrappers
+                if callable(fn) and hasattr(fn, "__defaults__"):
+                    _note_defaults(fn)
                 if attr.startswith("__"):
                     continue
                 if isinstance(val, (list, dict, set, bytearray)):
                     _class_state.append((cls, attr, val, copy.copy(val)))
+        for fname, fn in sorted(vars(mod).items(), key=lambda kv: kv[0]):
+            if callable(fn) and hasattr(fn, "__defaults__") and getattr(fn, "__module__", None) == name:
+                _note_defaults(fn)
+
+
+_default_state: list = []  # (live mutable default argument, pristine copy): the classic `def f(x, acc={})` shared accumulator
+
+
+def _note_defaults(fn) -> None:
+    vals = list(fn.__defaults__ or ()) + list((fn.__kwdefaults__ or {}).values())
+    for v in vals:
+        if isinstance(v, (list, dict, set, bytearray)) and not any(v is x for (x, _p) in _default_state):
+            _default_state.append((v, copy.copy(v)))
 
 
 def _restore_classes() -> None:
+    for (live, pristine) in _default_state:
+        if live != pristine:
+            if isinstance(live, (list, bytearray)):
+                live[:] = pristine
+            else:
+                live.clear()
+                live.update(pristine)
     for (cls, attr, live, pristine) in _class_state:
         try:
             if live != pristine or type(live) is not type(pristine):
